@@ -44,6 +44,9 @@ def _session(sim, mgr=None):
     s.db = sim.db
     s.env = sim.env
     s.coin = sim.env.coin
+    if mgr is None:
+        # the real manager (its reorg counter and caches are read by the handlers)
+        mgr = smod.SessionManager(sim.env, sim.db, None, None, None, None)
     s.session_mgr = mgr
     s.costs = []
     s.bump_cost = s.costs.append
